@@ -10,3 +10,7 @@ pub use crate::verif_types::{BytesSpec, rng_drawn};
 pub use crate::spec_poly1305::*;
 #[allow(unused_imports)]
 pub use crate::spec_aead::*;
+#[allow(unused_imports)]
+pub use crate::spec_hash::*;
+#[allow(unused_imports)]
+pub use crate::spec_curve::*;
